@@ -46,6 +46,17 @@ func toSession(s *Sess) *session.Session {
 	return &session.Session{Key: s.Key, Hash: s.Hash, Salt: s.Salt, Hostname: s.Host}
 }
 
+// storeAndWipe stores a copy of the session the way a careful caller does: the key material it handed to Store is
+// wiped (here: overwritten) as soon as Store has returned. What was stored is what Store was given.
+func storeAndWipe(l session.SessionLoader, s *Sess) error {
+	ss := &session.Session{Key: append([]byte{}, s.Key...), Hash: append([]byte{}, s.Hash...), Salt: s.Salt, Hostname: s.Host}
+	err := l.Store(ss)
+	hx.Scribble(ss.Key)
+	hx.Scribble(ss.Hash)
+	ss.Salt, ss.Hostname = ^ss.Salt, "wiped"
+	return err
+}
+
 func same(got *session.Session, want *Sess) error {
 	if got == nil {
 		return fmt.Errorf("nil session")
@@ -91,7 +102,7 @@ func execute(c Case) error {
 				if op.Kind == "storeSameTick" {
 					before, _ = os.Stat(p)
 				}
-				if err := l.Store(toSession(op.S)); err != nil {
+				if err := storeAndWipe(l, op.S); err != nil {
 					return fmt.Errorf("%s: Store failed although the directory exists: %v", where, err)
 				}
 				if before != nil {
@@ -425,7 +436,7 @@ func concurrentStores(seed uint64, rounds int) error {
 					hostLen = 8 + int(hx.DetU64(sd+9)%30)
 				}
 				want := &Sess{Key: hx.Det(sd, 256), Hash: hx.Det(sd+1, 8), Salt: int64(hx.DetU64(sd + 2)), Host: fmt.Sprintf("%0*d:443", hostLen-4, w*1000+r%1000)}
-				if err := l.Store(toSession(want)); err != nil {
+				if err := storeAndWipe(l, want); err != nil {
 					errs <- fmt.Errorf("client %d, store %d: Store failed while %d other loaders store to other files: %v", w, r, workers-1, err)
 					return
 				}
